@@ -35,7 +35,7 @@ import ast
 import builtins
 from typing import Dict, Iterable, List, Optional, Set, Tuple
 
-from .callgraph import EXTERNAL, CallGraph, FuncInfo
+from .callgraph import EXTERNAL, CallGraph, FuncInfo, _strip_annotation
 from .index import FuncNode, Repo, call_name, enclosing_function, norm, parent, walk_local
 
 SCOPE = (
@@ -250,6 +250,10 @@ def generator_surface_points(caller: ast.AST, call: ast.Call) -> Tuple[List[ast.
         return [p.iter], True
     if isinstance(p, ast.withitem):
         return [call], True  # @contextmanager: raised on __enter__ at the with statement
+    if isinstance(p, ast.Return):
+        # handed through unchanged (a wrapper): charged to the callers at their call
+        # expression, which is where they iterate it in every such use in the tree
+        return [call], True
     names = _bound_names(call)
     if names and len(names) == 1 and not names[0][1]:
         name = names[0][0]
@@ -283,12 +287,87 @@ def generator_surface_points(caller: ast.AST, call: ast.Call) -> Tuple[List[ast.
     return [call], False
 
 
+class IndexedCallGraph(CallGraph):
+    """``CallGraph`` with the local-binding lookup of ``infer_class`` served from a
+    per-function index (the base class re-walks the function body for every name it
+    resolves, which dominates the build time).  Same results, same order."""
+
+    def _bindings(self, fn: ast.AST) -> Dict[str, list]:
+        b = getattr(fn, "_bind_index", None)
+        if b is None:
+            b = {}
+            for n in walk_local(fn):
+                if isinstance(n, ast.AnnAssign) and isinstance(n.target, ast.Name):
+                    b.setdefault(n.target.id, []).append((n.annotation, n.value))
+                elif isinstance(n, ast.Assign):
+                    for t in n.targets:
+                        if isinstance(t, ast.Name):
+                            b.setdefault(t.id, []).append((None, n.value))
+                elif isinstance(n, ast.With):
+                    for it in n.items:
+                        if isinstance(it.optional_vars, ast.Name):
+                            b.setdefault(it.optional_vars.id, []).append((None, it.context_expr))
+            fn._bind_index = b  # type: ignore[attr-defined]
+        return b
+
+    def resolve_call(self, fi: FuncInfo, c: ast.Call):
+        f = c.func
+        if isinstance(f, ast.Name) and self.repo.resolve_name(fi.module, f.id) is None:
+            nd = getattr(fi.node, "_nested_defs", None)
+            if nd is None:
+                nd = {}
+                for n in ast.walk(fi.node):
+                    if isinstance(n, FuncNode):
+                        nd.setdefault(n.name, n)
+                fi.node._nested_defs = nd  # type: ignore[attr-defined]
+            n = nd.get(f.id)
+            if n is not None and id(n) in self.by_node:
+                return [self.by_node[id(n)]], True, "nested"
+            return [], True, "external"
+        return super().resolve_call(fi, c)
+
+    def infer_class(self, fi: FuncInfo, e: ast.expr, depth: int = 0):
+        if not isinstance(e, ast.Name) or depth > 4:
+            return super().infer_class(fi, e, depth)
+        m = fi.module
+        if e.id in ("self", "cls") and fi.cls is not None:
+            return m, fi.cls
+        fn = fi.node
+        while fn is not None:
+            if isinstance(fn, FuncNode):
+                for a in fn.args.posonlyargs + fn.args.args + fn.args.kwonlyargs:
+                    if a.arg == e.id:
+                        if a.arg in ("self", "cls"):
+                            from .index import enclosing_class
+
+                            ec = enclosing_class(fn)
+                            return (m, ec) if ec is not None else None
+                        return self._resolve_class(m, _strip_annotation(a.annotation))
+                cands = []
+                for annot, val in self._bindings(fn).get(e.id, ()):
+                    if annot is not None:
+                        r = self._resolve_class(m, _strip_annotation(annot))
+                        if r:
+                            cands.append(r)
+                    elif val is not None:
+                        r = self.infer_class(fi, val, depth + 1) if not (isinstance(val, ast.Name) and val.id == e.id) else None
+                        if r:
+                            cands.append(r)
+                if cands:
+                    first = cands[0]
+                    if all(c[1] is first[1] for c in cands):
+                        return first
+                    return None
+            fn = enclosing_function(fn)
+        return self._resolve_class(m, e.id)
+
+
 class Graph:
     """Call graph + surfaces (caller, node, callee)."""
 
     def __init__(self, repo: Repo, prefixes: Iterable[str] = SCOPE):
         self.repo = repo
-        self.cg = CallGraph(repo, prefixes)
+        self.cg = IndexedCallGraph(repo, prefixes)
         self.surf_to: Dict[str, List[Surface]] = {}
         self.surf_from: Dict[str, List[Surface]] = {}
         self.unknown: List[str] = []  # constructs whose flow is not understood (never alarm on them)
@@ -300,6 +379,8 @@ class Graph:
         self._deco_fqs_seed: Set[str] = set()
         self._partials_by_module: Dict[str, List[FuncInfo]] = {}
         self._base_surfaces()
+        self._matchable_calls()
+        self._cls_constructors()
         self._decorators()
         self._deferred_partials()
         self._alias_union()
@@ -340,6 +421,42 @@ class Graph:
                     continue  # creation of a deferred callable: see _deferred_partials
                 for t in e.targets:
                     self._add_call(e.caller, e.call, t, e.how)
+
+    def _matchable_calls(self) -> None:
+        """``x.match(segments, idx, ctx)`` on a receiver of unknown class.  The plain call
+        graph takes every untyped ``.match(`` for ``re.Pattern.match``; the three-argument
+        form is the ``Matchable`` interface (regex matches take one string)."""
+        proto = [f for f in self.cg.methods_by_name.get("match", []) if f.cls is not None and f.cls.name == "Matchable"]
+        n = 0
+        if len(proto) != 1:
+            self.stats["matchable_call_sites"] = 0
+            return
+        sig = [a.arg for a in proto[0].node.args.args[1:]]
+        # the protocol is structural (segment classes do not inherit from Matchable):
+        # every `match` with the protocol's parameter list implements it
+        cands = [f for f in self.cg.methods_by_name.get("match", []) if [a.arg for a in f.node.args.args[1:]] == sig]
+        for fq, edges in self.cg.edges_from.items():
+            for e in edges:
+                if e.how == "external-builtin-name" and isinstance(e.call.func, ast.Attribute) and e.call.func.attr == "match" \
+                        and len(e.call.args) + len([k for k in e.call.keywords if k.arg]) == 3 and not any(isinstance(a, ast.Starred) for a in e.call.args):
+                    n += 1
+                    for t in cands:
+                        self._add_call(e.caller, e.call, t, "matchable")
+        self.stats["matchable_call_sites"] = n
+
+    def _cls_constructors(self) -> None:
+        """``cls(..)`` inside a classmethod constructs the class (or a subclass)."""
+        n = 0
+        for fi in list(self.cg.funcs.values()):
+            if fi.cls is None or not fi.node.args.args or fi.node.args.args[0].arg != "cls":
+                continue
+            for c in walk_local(fi.node):
+                if isinstance(c, ast.Call) and isinstance(c.func, ast.Name) and c.func.id == "cls":
+                    for name in ("__init__", "__post_init__"):
+                        for t in self.cg.method_targets(fi.module, fi.cls, name):
+                            self._add_call(fi, c, t, "cls-constructor")
+                            n += 1
+        self.stats["cls_constructor_targets"] = n
 
     # -- 1. decorators --------------------------------------------------------------
     def _wrappers_of(self, D: FuncInfo) -> List[Tuple[FuncInfo, List[ast.Call]]]:
@@ -488,14 +605,9 @@ class Graph:
 
     def _alias_classes_uncached(self, fi: FuncInfo, recv: ast.Name) -> List[Tuple[object, ast.ClassDef]]:
         out: List[Tuple[object, ast.ClassDef]] = []
-        for n in walk_local(fi.node):
-            if isinstance(n, ast.AnnAssign) and isinstance(n.target, ast.Name) and n.target.id == recv.id:
-                out += self._classes_in_annotation(fi.module, n.annotation)
-            val = None
-            if isinstance(n, ast.Assign) and any(isinstance(t, ast.Name) and t.id == recv.id for t in n.targets):
-                val = n.value
-            elif isinstance(n, ast.AnnAssign) and isinstance(n.target, ast.Name) and n.target.id == recv.id:
-                val = n.value
+        for annot, val in self.cg._bindings(fi.node).get(recv.id, ()):
+            if annot is not None:
+                out += self._classes_in_annotation(fi.module, annot)
             if isinstance(val, ast.Call) and isinstance(val.func, ast.Name):
                 out += self._alias_target(fi.module, val.func.id)
         uniq = []
